@@ -399,7 +399,7 @@ M('c09-outguard-forward', 'C09', GENG, "            result_label=result_labels[i
 M('c09-hostin-back', 'C09', GENG, "    if add_outputs:\n        for result_label in result_labels:\n            circuit.mark_as_output(result_label)\n    return result_labels", "    circuit.order_inputs(input_labels)\n    if add_outputs:\n        for result_label in result_labels:\n            circuit.mark_as_output(result_label)\n    return result_labels", 'C09.HOST-IN')
 M('c09-addonly-rename', 'C09', 'cirbo/synthesis/generation/arithmetics/equality.py', "    last_label = generate_random_label(circuit)\n    if len(gates_for_and) == 1:\n        return gates_for_and[0]", "    last_label = generate_random_label(circuit)\n    if len(gates_for_and) == 1:\n        circuit.rename_gate(gates_for_and[0], last_label)\n        return last_label", 'C09.ADD-ONLY')
 M('c09-args-div', 'C09', 'cirbo/synthesis/generation/arithmetics/div_mod.py', "    input_labels_a = list(input_labels_a)\n    input_labels_b = list(input_labels_b)\n    if big_endian:", "    input_labels_b = list(input_labels_b)\n    if big_endian:", 'C09.ARGS')
-M('c09-args-compare-pad', 'C09', SUBF, "    input_labels_a = list(input_labels_a)\n    input_labels_b = list(input_labels_b)\n\n    always_false = add_gate_from_tt(", "    input_labels_a = list(input_labels_a)\n\n    always_false = add_gate_from_tt(", 'C09.ARGS')
+M('c09-args-compare-pad', 'C09', SUBF, "    input_labels_a = list(input_labels_a)\n    input_labels_b = list(input_labels_b)\n\n    if big_endian:\n        input_labels_a.reverse()\n        input_labels_b.reverse()\n\n    # pad", "    input_labels_a = list(input_labels_a)\n\n    if big_endian:\n        input_labels_a.reverse()\n        input_labels_b.reverse()\n\n    # pad", 'C09.ARGS')
 M('c09-endian-sub', 'C09', SUBF, "            res[i], bal[i] = add_sub2(circuit, [input_labels_a[i], bal[i - 1]])\n\n    return reverse_if_big_endian(res, big_endian)", "            res[i], bal[i] = add_sub2(circuit, [input_labels_a[i], bal[i - 1]])\n\n    return res", 'C09.ENDIAN')
 M('c09-endian-div', 'C09', 'cirbo/synthesis/generation/arithmetics/div_mod.py', "    if big_endian:\n        result.reverse()\n        now.reverse()\n\n    return result, now", "    if big_endian:\n        result.reverse()\n\n    return result, now", 'C09.ENDIAN')
 M('c09-endian-sqrt', 'C09', 'cirbo/synthesis/generation/arithmetics/sqrt.py', "    return reverse_if_big_endian(c[:half], big_endian)", "    return c[:half]", 'C09.ENDIAN')
@@ -430,3 +430,5 @@ M('c12-fold-monotone-inverse', 'C12', CIRC, "        change_value: bool = False\
 M('c12-fold-negations-output-filter', 'C12', PYF, "            return [result[idx] for idx in output_index]\n\n        for negations in itertools.product((False, True), repeat=self.input_size):\n            symmetric = True", "            return [result[idx] for idx in output_index[:1]]\n\n        for negations in itertools.product((False, True), repeat=self.input_size):\n            symmetric = True", 'C12.FOLD')
 M('c12-fold-twin-generator', 'C12', TTB, "        return all(self.is_constant_at(i) for i in range(self.output_size))", "        return all([self.is_constant_at(i) for i in range(self.output_size)])", None)
 M('c12-twin-sym-trivial-classes', 'C12', TTB, "        for number_of_true in range(self.input_size + 1):\n\n            _iter = iter(input_iterator_with_fixed_sum(self.input_size, number_of_true))\n            value: bool = self.evaluate_at(next(_iter), output_index)", "        for number_of_true in range(1, self.input_size):\n\n            _iter = iter(input_iterator_with_fixed_sum(self.input_size, number_of_true))\n            value: bool = self.evaluate_at(next(_iter), output_index)", None)
+M('c09-endian-pad-before-reverse', 'C09', SUBF, "    if big_endian:\n        input_labels_a.reverse()\n        input_labels_b.reverse()\n\n    # pad the shorter (now little-endian) number with most significant zeros.\n    always_false = add_gate_from_tt(\n        circuit, input_labels_a[0], input_labels_b[0], \"0000\"\n    )\n    while len(input_labels_a) < len(input_labels_b):\n        input_labels_a.append(always_false)\n    while len(input_labels_a) > len(input_labels_b):\n        input_labels_b.append(always_false)\n",
+  "    always_false = add_gate_from_tt(\n        circuit, input_labels_a[0], input_labels_b[0], \"0000\"\n    )\n    while len(input_labels_a) < len(input_labels_b):\n        input_labels_a.append(always_false)\n    while len(input_labels_a) > len(input_labels_b):\n        input_labels_b.append(always_false)\n\n    if big_endian:\n        input_labels_a.reverse()\n        input_labels_b.reverse()\n", 'C09.ENDIAN')
